@@ -12,7 +12,10 @@ _spec.loader.exec_module(c11)
 
 REQ = "From QV Require Import Base.Util C12.Model C11.Model C14.Model."
 NAMES = ["a.parquet", "b.parquet", "c.parquet", "part-0.parquet", "part-00.parquet", "é.parquet", "Z.parquet", "ab.parquet"]
-KINDS = ["same", "same", "file_name", "layout", "row_count", "byte_size", "extra_file", "missing_file", "tamper"]
+# empty_worker / empty_init: one copy holds the same file names with NO rows (zero splits) — a digest over nothing must still be
+# compared (added after seeded change seeded/C14); empty_both: both copies empty (equal digests: the fragment runs over nothing)
+KINDS = ["same", "same", "file_name", "layout", "row_count", "byte_size", "extra_file", "missing_file", "tamper",
+         "empty_worker", "empty_worker", "empty_init", "empty_both"]
 
 
 def gen_copy(rng):
@@ -58,6 +61,15 @@ def gen_case(rng):
             init.append({"name": rng.choice([n for n in NAMES if n != f["name"]]), "rows": [3], "width": 1})
     elif kind == "tamper":
         tamper = 1 << rng.randrange(64)
+    elif kind in ("empty_worker", "empty_both"):
+        for g in worker:
+            g["rows"] = []
+        if kind == "empty_both":
+            for g in init:
+                g["rows"] = []
+    elif kind == "empty_init":
+        for g in init:
+            g["rows"] = []
     count = rng.choice([0, 1, 2, 3, 4, 8, 16, 64])
     eff = max(count, 1)
     idx = rng.randrange(eff) if rng.random() < 0.7 else rng.choice([eff, eff + 1, 1000])
